@@ -18,6 +18,12 @@ for d in sorted(glob.glob(root+'/c*/change[12]')):
     pk=[p for p in pk if p not in ('message/...','pubsub/...','components/...') and '...' not in p]
     if not rx or not pk:
         funcs=re.findall(r'func (Test\w+)\(',src); rx=rx or ['|'.join(funcs)]
+    if not pk:
+        pkgmap={'message':'message','gochannel':'pubsub/gochannel','middleware':'message/router/middleware','plugin':'message/router/plugin','cqrs':'components/cqrs',
+                'forwarder':'components/forwarder','requestreply':'components/requestreply','requeuer':'components/requeuer','metrics':'components/metrics',
+                'delay':'components/delay','fanin':'components/fanin','sync':'pubsub/sync','subscriber':'message/subscriber'}
+        pn=re.search(r'^package (\w+?)(?:_test)?$',src,re.M)
+        if pn and pn.group(1) in pkgmap: pk=[pkgmap[pn.group(1)]]
     if not pk: print('NO-PKG',d, rx); continue
     add.append(f"{id}\t{prop}\t{d}\t{pk[0]}\t{rx[0].strip('`')}")
 open('/verif/seeded/index.tsv','a').write(''.join(a+'\n' for a in add))
